@@ -434,4 +434,162 @@ theorem C24_crash_prefix (cfg : Cfg) (now draw : Nat) (loc : Option Local) (resp
   rw [← C24_ops_replay]
   exact crash_prefix_ops cfg now draw loc resp fs s hs
 
+/-! ### Recovery -/
+
+/-- A later update of a copy that agrees with the server's snapshot at its serial outside `T`,
+under an honest view that is not answered Not Modified and whose selected delta chain touches
+all of `T`: a reported success is the notified version. -/
+theorem recover_dirty (h : History) (cfg : Cfg) (hgap : cfg.gapCheck = true)
+    (l : Local) (x : Objs) (T : Uri → Prop)
+    (hx : History.at h l.state.session l.state.serial = some x)
+    (hag : ∀ u, ¬ T u → Objs.get l.objs u = Objs.get x u)
+    (now draw : Nat) (etag lm : Option Nat) (cond : Bool) (n : Notif) (fs : Files)
+    (hh : Honest h n fs)
+    (hnm : serverNotModified (some l) etag lm cond = false)
+    (hT : ∀ ds, calcDeltas cfg n.serial (effDeltas cfg n) l.state = some ds →
+      ∀ u, T u → TouchedBy fs ds u)
+    (hupd : (update cfg now draw (some l) (.ok etag lm cond (some n)) fs).result = .updated) :
+    ∃ l', (update cfg now draw (some l) (.ok etag lm cond (some n)) fs).loc = some l' ∧
+      Clean h l' ∧ l'.state.session = n.session ∧ l'.state.serial = n.serial := by
+  obtain ⟨h2, l', h1⟩ := update_result_updated hupd
+  refine ⟨l', h1, ?_⟩
+  unfold updateCore at h1 h2
+  simp only [hnm, Bool.false_eq_true, if_false] at h1 h2
+  rcases notifStep_updated h1 h2 with ⟨tr, hd⟩ | ⟨o, ho, rfl⟩
+  · refine deltaUpdate_dirty hgap x hx ?_ hh hd
+    intro ds hds u hu
+    apply hag u
+    intro hTu
+    exact hu (hT ds hds u hTu)
+  · obtain ⟨x', hx', hs⟩ := fetchSnapshot_genuine hh ho
+    exact ⟨⟨x', hx', hs⟩, rfl, rfl⟩
+
+/-- **C24 (partial).** An update that starts from a clean copy (or none) under an honest view is
+killed after any prefix of its storage operations. A later update under an honest view that has
+moved on (the server does not answer Not Modified to the validators of the copy left) and whose
+selected delta chain touches every URI the interrupted chain touched, if reported successful,
+leaves exactly the server's snapshot at the notified serial. -/
+theorem C24_crash_then_update_partial (h : History) (cfg : Cfg) (hgap : cfg.gapCheck = true)
+    -- the interrupted update
+    (now draw : Nat) (loc : Option Local) (resp : NResp) (fs : Files)
+    (hclean : ∀ l, loc = some l → Clean h l)
+    (hhon : ∀ etag lm cond n, resp = .ok etag lm cond (some n) → Honest h n fs)
+    (hnd : (update cfg now draw loc resp fs).dirty = false)
+    (hnr : (update cfg now draw loc resp fs).result ≠ .runRetry)
+    (s : Option Local) (hs : s ∈ scan loc (storeOps cfg now draw loc resp fs))
+    -- the later update
+    (now' draw' : Nat) (etag' lm' : Option Nat) (cond' : Bool) (n' : Notif) (fs' : Files)
+    (hhon' : Honest h n' fs')
+    (hnm : serverNotModified s etag' lm' cond' = false)
+    (hT : ∀ l ds, s = some l →
+      calcDeltas cfg n'.serial (effDeltas cfg n') l.state = some ds →
+      ∀ u, chainTouched cfg loc resp fs u → TouchedBy fs' ds u)
+    (hupd : (update cfg now' draw' s (.ok etag' lm' cond' (some n')) fs').result = .updated) :
+    ∃ l', (update cfg now' draw' s (.ok etag' lm' cond' (some n')) fs').loc = some l' ∧
+      Clean h l' ∧ l'.state.session = n'.session ∧ l'.state.serial = n'.serial := by
+  -- a clean (or absent) copy is handled by C25
+  have fromClean : (∀ l, s = some l → Clean h l) →
+      ∃ l', (update cfg now' draw' s (.ok etag' lm' cond' (some n')) fs').loc = some l' ∧
+        Clean h l' ∧ l'.state.session = n'.session ∧ l'.state.serial = n'.serial := by
+    intro hc
+    cases s with
+    | none =>
+      obtain ⟨l', h1, hc', hcase⟩ := C25_updated_equal_partial h cfg hgap now' draw' none _ fs' hc
+        (fun e l c n hn => by cases hn; exact hhon') hupd
+      refine ⟨l', h1, hc', ?_⟩
+      rcases hcase with ⟨l, hl, _⟩ | ⟨e, lm2, c, n2, hn, h3, h4⟩
+      · cases hl
+      · cases hn; exact ⟨h3, h4⟩
+    | some l =>
+      obtain ⟨x, hx, hsame⟩ := hc l rfl
+      exact recover_dirty h cfg hgap l x (fun _ => False) hx (fun u _ => hsame u)
+        now' draw' etag' lm' cond' n' fs' hhon' hnm (fun _ _ _ hF => hF.elim) hupd
+  rcases C24_crash_prefix cfg now draw loc resp fs s hs with h0 | h0 | ⟨l, l', hl, hs', hst, hag⟩
+  · exact fromClean (fun l hl => by rw [h0] at hl; cases hl)
+  · -- the completed copy of the interrupted update is clean
+    apply fromClean
+    intro l0 hl0
+    rw [h0] at hl0
+    by_cases hu : (update cfg now draw loc resp fs).result = .updated
+    · obtain ⟨l1, h1, hc1, _⟩ :=
+        C25_updated_equal_partial h cfg hgap now draw loc resp fs hclean hhon hu
+      rw [h1] at hl0; cases hl0; exact hc1
+    · have hf := (C25_not_updated_frame cfg now draw loc resp fs hu hnr).2 hnd
+      rw [hf] at hl0
+      exact hclean l0 hl0
+  · subst hs'
+    obtain ⟨x, hx, hsame⟩ := hclean l hl
+    rw [← hst] at hx
+    exact recover_dirty h cfg hgap l' x (chainTouched cfg loc resp fs) hx
+      (fun u hu => by rw [hag u hu]; exact hsame u)
+      now' draw' etag' lm' cond' n' fs' hhon' hnm (fun ds hds => hT l' ds rfl hds) hupd
+
+/-! ### The executable crash invariant the harness applies to the real archive -/
+
+theorem get_none_of_not_mem_keys (o : Objs) (u : Uri) (h : u ∉ Objs.keys o) :
+    Objs.get o u = none := by
+  induction o with
+  | nil => rfl
+  | cons p r ih =>
+    obtain ⟨k, c⟩ := p
+    simp only [Objs.keys, List.map_cons, List.mem_cons, not_or] at h
+    simp only [Objs.get, List.lookup]
+    have : (u == k) = false := by simp [h.1]
+    rw [this]
+    exact ih h.2
+
+theorem agreeOutside_sound {touched : List Uri} {a b : Objs}
+    (h : agreeOutside touched (Objs.keys a ++ Objs.keys b) a b = true) :
+    ∀ u, u ∉ touched → Objs.get a u = Objs.get b u := by
+  intro u hu
+  by_cases hm : u ∈ Objs.keys a ++ Objs.keys b
+  · unfold agreeOutside at h
+    have := List.all_eq_true.mp h u hm
+    simp only [Bool.or_eq_true, List.contains_eq_mem, decide_eq_true_eq, beq_iff_eq] at this
+    rcases this with h1 | h1
+    · exact absurd h1 hu
+    · exact h1
+  · simp only [List.mem_append, not_or] at hm
+    rw [get_none_of_not_mem_keys a u hm.1, get_none_of_not_mem_keys b u hm.2]
+
+/-- `crashInvOk` (run by the driver on what the harness reads back after every kill) implies the
+`CrashLeft` shape: the completed copy up to the per-run fields, or the old state with objects
+changed only on touched URIs. -/
+theorem C24_crashInv_sound (touched : List Uri) (via : Bool) (pre done : Option Local) (o : Local)
+    (h : crashInvOk touched via pre done (some o) = true) :
+    (∃ d, done = some d ∧ o.state.key = d.state.key ∧ Same o.objs d.objs) ∨
+    (∃ p, pre = some p ∧ o.state.key = p.state.key ∧
+      ∀ u, u ∉ touched → Objs.get o.objs u = Objs.get p.objs u) := by
+  unfold crashInvOk at h
+  simp only [Bool.or_eq_true] at h
+  rcases h with h | h
+  · left
+    cases done with
+    | none => simp at h
+    | some d =>
+      simp only [Bool.and_eq_true, beq_iff_eq] at h
+      exact ⟨d, rfl, h.1, fun u => agreeOutside_sound h.2 u (by simp)⟩
+  · right
+    cases pre with
+    | none => simp at h
+    | some p =>
+      simp only [Bool.and_eq_true, beq_iff_eq] at h
+      exact ⟨p, rfl, h.1, agreeOutside_sound h.2⟩
+
+/-! ### Non-vacuity: a two-element delta update has four crash states, the middle ones dirty. -/
+
+example :
+    (scan (some { objs := [(2, 12), (1, 11)],
+                  state := { session := 0, serial := 3, etag := none, lm := none, updated := 100,
+                             bestBefore := 110, deltaState := [] } })
+      (storeOps C25Witness.cfg 102 10
+        (some { objs := [(2, 12), (1, 11)],
+                state := { session := 0, serial := 3, etag := none, lm := none, updated := 100,
+                           bestBefore := 110, deltaState := [] } })
+        (.ok none none false (some C25Witness.notif4))
+        [none, some { C25Witness.delta4 with elems := [.update 2 12 13, .withdraw 1 11] }])).map
+      (fun s => s.map (fun l => (l.objs, l.state.serial))) =
+    [ some ([(2, 12), (1, 11)], 3), some ([(2, 13), (1, 11)], 3), some ([(2, 13)], 3),
+      some ([(2, 13)], 4) ] := by decide
+
 end RoutinatorModel
